@@ -61,7 +61,12 @@ class ConcreteDom:
 class RealDom:
     """floats as exact reals: Fraction when concrete, z3 Real terms when symbolic."""
     name = 'real'
-    def __init__(s): s.ufs = {}; s.div0_fresh = False; s.nfresh = 0
+    def __init__(s, round_concrete=False):
+        s.ufs = {}; s.div0_fresh = False; s.nfresh = 0
+        s.round_concrete = round_concrete      # concrete (operand-wise constant) arithmetic is rounded like IEEE, so values built in IR equal natively built ones
+    def _rc(s, r, bits):
+        if not s.round_concrete: return r
+        return Fraction(float(np.float32(float(r)))) if bits == 32 else Fraction(float(r))
     def _div0(s):
         if not s.div0_fresh: raise Unsupported('division by zero in real domain')
         s.nfresh += 1; return z3.Real('div0_%d' % s.nfresh)
@@ -81,7 +86,7 @@ class RealDom:
     def bin(s, op, a, b, bits):
         if isinstance(a, Fraction) and isinstance(b, Fraction):
             if op == 'fdiv' and b == 0: return s._div0()
-            return {'fadd': lambda: a + b, 'fsub': lambda: a - b, 'fmul': lambda: a * b, 'fdiv': lambda: a / b}[op]()
+            return s._rc({'fadd': lambda: a + b, 'fsub': lambda: a - b, 'fmul': lambda: a * b, 'fdiv': lambda: a / b}[op](), bits)
         if op == 'fmul':
             if isinstance(a, Fraction) and a == 0: return a
             if isinstance(b, Fraction) and b == 0: return b
@@ -106,9 +111,9 @@ class RealDom:
             return int({'eq': a == b, 'gt': a > b, 'ge': a >= b, 'lt': a < b, 'le': a <= b, 'ne': a != b}[p])
         a, b = s.z(a), s.z(b)
         return {'eq': a == b, 'gt': a > b, 'ge': a >= b, 'lt': a < b, 'le': a <= b, 'ne': a != b}[p]
-    def conv(s, a, frm, to): return a
+    def conv(s, a, frm, to): return s._rc(a, to) if isinstance(a, Fraction) else a
     def from_int(s, v, signed, ibits, bits):
-        if isinstance(v, int): return Fraction(sgn(v, ibits) if signed else v)
+        if isinstance(v, int): return s._rc(Fraction(sgn(v, ibits) if signed else v), bits)
         if z3.is_bool(v): return z3.If(v, z3.RealVal(1), z3.RealVal(0))
         return z3.ToReal(z3.BV2Int(v, signed))
     def uf(s, name, k):
@@ -201,7 +206,7 @@ class Exec:
         self.intof = {}
         self._alloc_starts = [a for a, n in snap.allocs]
         self.branch_timeout = 30000
-        self.ext_prefix = []
+        self.ext_prefix = [('_ZN4vfps7Display9printText', ext_noop)]      # logging is not the subject
         self.max_paths = 1500
         self.time_budget = 150
 
@@ -1200,3 +1205,51 @@ def occurs(term, sym):
         if t.get_id() == sid: return True
         stack.extend(t.children())
     return False
+
+# ------------------------------------------------------------------ libstdc++ std::string (compiled members reached from inlined code); layout {char* p; size_t len; union{char buf[16]; size_t cap;}}
+def _str_get(ex, st, s):
+    p = ex.load(st, s, IntTy(64)); n = ex.load(st, s + 8, IntTy(64))
+    cap = 15 if p == s + 16 else ex.load(st, s + 16, IntTy(64))
+    return p, n, cap
+def ext_str_create(ex, st, fr, args, ins):
+    this, capref, old = args
+    cap = ex.load(st, capref, IntTy(64))
+    if cap > old and cap < 2 * old: cap = 2 * old; ex.store(st, capref, IntTy(64), cap)
+    return ex.malloc(st, cap + 1)
+def _str_set(ex, st, s, data):
+    p, n, cap = _str_get(ex, st, s)
+    if len(data) > cap:
+        newcap = max(len(data), 2 * cap); p = ex.malloc(st, newcap + 1)
+        ex.store(st, s, IntTy(64), p); ex.store(st, s + 16, IntTy(64), newcap)
+    ex.write_bytes(st, p, data + b'\0'); ex.store(st, s + 8, IntTy(64), len(data))
+def ext_str_append(ex, st, fr, args, ins):
+    this, src, k = args
+    p, n, cap = _str_get(ex, st, this)
+    _str_set(ex, st, this, ex.read_bytes(st, p, n) + ex.read_bytes(st, src, k)); return this
+def ext_str_assign(ex, st, fr, args, ins):
+    this, other = args
+    p, n, cap = _str_get(ex, st, other); _str_set(ex, st, this, ex.read_bytes(st, p, n)); return None
+def ext_str_replace(ex, st, fr, args, ins):
+    this, pos, len1, src, len2 = args
+    p, n, cap = _str_get(ex, st, this); cur = ex.read_bytes(st, p, n)
+    _str_set(ex, st, this, cur[:pos] + ex.read_bytes(st, src, len2) + cur[pos + len1:]); return this
+def ext_str_mutate(ex, st, fr, args, ins):
+    this, pos, len1, src, len2 = args
+    p, n, cap = _str_get(ex, st, this); cur = ex.read_bytes(st, p, n)
+    new = cur[:pos] + (ex.read_bytes(st, src, len2) if src else bytes(len2)) + cur[pos + len1:]
+    newcap = max(len(new), 2 * cap); q = ex.malloc(st, newcap + 1); ex.write_bytes(st, q, new + b'\0')
+    ex.store(st, this, IntTy(64), q); ex.store(st, this + 16, IntTy(64), newcap); return None
+def ext_str_compare(ex, st, fr, args, ins):
+    a, b = args[0], args[1]
+    pa, na, _ = _str_get(ex, st, a); x = ex.read_bytes(st, pa, na)
+    if ins['args'][1][0].__class__.__name__ == 'PtrTy' and len(args) == 2 and 'PKc' in (ins['callee'][1] if ins['callee'][0] == 'global' else ''):
+        k = 0
+        while ex.read_bytes(st, b + k, 1) != b'\0': k += 1
+        y = ex.read_bytes(st, b, k)
+    else:
+        pb, nb_, _ = _str_get(ex, st, b); y = ex.read_bytes(st, pb, nb_)
+    return ((x > y) - (x < y)) & MASK(32)
+SP = '_ZNSt7__cxx1112basic_stringIcSt11char_traitsIcESaIcEE'
+DEFAULT_EXT.update({SP + '9_M_createERmm': ext_str_create, SP + '9_M_appendEPKcm': ext_str_append, SP + '9_M_assignERKS4_': ext_str_assign,
+                    SP + '10_M_replaceEmmPKcm': ext_str_replace, SP + '9_M_mutateEmmPKcm': ext_str_mutate,
+                    '_ZNKSt7__cxx1112basic_stringIcSt11char_traitsIcESaIcEE7compareEPKc': ext_str_compare, '_ZNKSt7__cxx1112basic_stringIcSt11char_traitsIcESaIcEE7compareERKS4_': ext_str_compare})
